@@ -13,10 +13,12 @@ import (
 	"strings"
 
 	"seehuhn.de/go/sfnt/glyph"
+	"seehuhn.de/go/sfnt/opentype/anchor"
 	"seehuhn.de/go/sfnt/opentype/classdef"
 	"seehuhn.de/go/sfnt/opentype/coverage"
 	"seehuhn.de/go/sfnt/opentype/gdef"
 	"seehuhn.de/go/sfnt/opentype/gtab"
+	"seehuhn.de/go/sfnt/opentype/markarray"
 	"seehuhn.de/go/sfnt/parser"
 )
 
@@ -429,12 +431,14 @@ func areaOtl(c *Ctx) {
 	nCov := c.N * 20 / 100
 	nCd := c.N * 20 / 100
 	nGsub := c.N * 15 / 100
-	nGpos := c.N * 15 / 100
+	nGpos := c.N * 12 / 100
+	nGposMark := c.N * 10 / 100
+	nCtx := c.N * 10 / 100
 	nFL := c.N * 5 / 100
 	nGdef := c.N * 6 / 100
 	nSL := c.N * 6 / 100
 	nGtab := c.N * 6 / 100
-	nLL := c.N - nCov - nCd - nGsub - nGpos - nFL - nGdef - nSL - nGtab
+	nLL := c.N - nCov - nCd - nGsub - nGpos - nGposMark - nCtx - nFL - nGdef - nSL - nGtab
 
 	// ---- coverage
 	special := [][]otlRun{
@@ -601,6 +605,16 @@ func areaOtl(c *Ctx) {
 	// ---- GDEF
 	for i := 0; i < nGdef; i++ {
 		otlGenGdef(c, i)
+	}
+
+	// ---- GPOS 2.2 / 3.1 / 4.1 / 6.1
+	for i := 0; i < nGposMark; i++ {
+		otlGenGposMark(c, i)
+	}
+
+	// ---- contextual lookups
+	for i := 0; i < nCtx; i++ {
+		otlGenCtx(c, i)
 	}
 
 	// ---- whole GSUB tables
@@ -791,6 +805,23 @@ func otlGsubFromFields(f Fields) gtab.Subtable {
 		return &gtab.Gsub3_1{Cov: cov, Alternates: otlParseSeqs(f["seqs"])}
 	case "41":
 		return &gtab.Gsub4_1{Cov: cov, Repl: otlParseLigSets(f["ligs"])}
+	case "81":
+		covs := func(k string) []coverage.Table {
+			var out []coverage.Table
+			for _, q := range f.List(k, "/") {
+				if q == "e" {
+					out = append(out, coverage.Table{})
+				} else {
+					out = append(out, otlCovFromRuns(otlParseRuns(q, false)))
+				}
+			}
+			return out
+		}
+		var subs []glyph.ID
+		for _, x := range f.Ints("subs") {
+			subs = append(subs, glyph.ID(x))
+		}
+		return &gtab.Gsub8_1{Input: cov, Backtrack: covs("back"), Lookahead: covs("look"), SubstituteGlyphIDs: subs}
 	}
 	panic("bad st")
 }
@@ -807,13 +838,27 @@ func otlShowSubtable(st gtab.Subtable) string {
 		return fmt.Sprintf("3.1;cov=%s;seqs=%s", otlShowCov(t.Cov), otlShowSeqs(t.Alternates))
 	case *gtab.Gsub4_1:
 		return fmt.Sprintf("4.1;cov=%s;ligs=%s", otlShowCov(t.Cov), otlShowLigSets(t.Repl))
+	case *gtab.Gsub8_1:
+		covs := func(l []coverage.Table) string {
+			q := make([]string, len(l))
+			for i, c := range l {
+				q[i] = otlShowCov(c)
+			}
+			return strings.Join(q, "/")
+		}
+		return fmt.Sprintf("8.1;in=%s;back=%s;look=%s;subs=%s", otlShowCov(t.Input), covs(t.Backtrack), covs(t.Lookahead), otlGids(t.SubstituteGlyphIDs))
 	}
 	return fmt.Sprintf("other:%T", st)
 }
 
 func init() {
 	ops["otl.gsub.encode"] = func(f Fields) string {
-		st := otlGsubFromFields(f)
+		var st gtab.Subtable
+		if f["st"][0] == 'c' || f["st"][0] == 'C' {
+			st = otlCtxFromFields(f)
+		} else {
+			st = otlGsubFromFields(f)
+		}
 		n := -1
 		if guard(func() string { n = gtab.VerifSubtableEncodeLen(st); return "" }) != "" {
 			return "panic"
@@ -835,6 +880,9 @@ func init() {
 			if err != nil {
 				return errKind(err)
 			}
+			if x := otlShowCtx(st); x != "" {
+				return "ok:" + x
+			}
 			return "ok:" + otlShowSubtable(st)
 		}))
 	}
@@ -855,7 +903,7 @@ func otlGenSeq(r *Rng, long bool) []glyph.ID {
 // otlGenGsub writes the cases for one GSUB subtable.
 func otlGenGsub(c *Ctx, i int) {
 	r := c.Rng
-	st := Pick(r, []string{"11", "12", "12", "21", "21", "31", "41", "41"})
+	st := Pick(r, []string{"11", "12", "12", "21", "21", "31", "41", "41", "81", "81"})
 	var rs []otlRun
 	for {
 		rs = otlGenRuns(r, false)
@@ -869,6 +917,8 @@ func otlGenGsub(c *Ctx, i int) {
 	switch {
 	case i == 4 || i == 5:
 		st = "41"
+	case i == 6 || i == 7:
+		st = "81"
 	case i < 4: // the coverage offset at the 16-bit boundary: 65534 is written, 65536 is refused
 		st = []string{"12", "12", "21", "31"}[i]
 		if st == "12" {
@@ -899,6 +949,36 @@ func otlGenGsub(c *Ctx, i int) {
 			subs[k] = r.Intn(65536)
 		}
 		args = fmt.Sprintf("st=12 cov=%s subs=%s", otlRunsString(rs, false), ints(subs))
+	case "81":
+		m := n
+		if what == "count-mismatch" {
+			m = max(0, n+Pick(r, []int{-2, -1, 1, 3}))
+		}
+		covs := func() string {
+			k := r.Intn(4)
+			q := make([]string, k)
+			for j := range q {
+				q[j] = otlRunsString(otlSmallCov(r, 40), false)
+				if q[j] == "" {
+					q[j] = "e"
+				}
+			}
+			return strings.Join(q, "/")
+		}
+		back, look := covs(), covs()
+		if i == 6 || i == 7 {
+			// the lookahead coverage starts at 65534 (written) / 65536 (refused):
+			// 10 + 2 + 2m + 10 (input coverage, one range) = 65534 for m = 32756
+			m, n = 32756+(i%2), 32756+(i%2)
+			rs = []otlRun{{0, n - 1, 0}}
+			back, look = "", "40000,40002"
+			what = "boundary"
+		}
+		subs := make([]int, m)
+		for k := range subs {
+			subs[k] = r.Intn(65536)
+		}
+		args = fmt.Sprintf("st=81 cov=%s back=%s look=%s subs=%s", otlRunsString(rs, false), back, look, ints(subs))
 	case "41":
 		m := n
 		if what == "count-mismatch" {
@@ -968,8 +1048,8 @@ func otlGenGsub(c *Ctx, i int) {
 	f := parseFields(args)
 	b := gtab.VerifSubtableEncode(otlGsubFromFields(f))
 	c.Stat("gsub.bytes", bucket(len(b)))
-	tp := map[string]int{"11": 1, "12": 1, "21": 2, "31": 3, "41": 4}[st]
-	if what != "count-mismatch" && len(b) <= 30000 && st != "41" {
+	tp := map[string]int{"11": 1, "12": 1, "21": 2, "31": 3, "41": 4, "81": 8}[st]
+	if what != "count-mismatch" && len(b) <= 30000 && st != "41" && st != "81" {
 		c.Case(Direct, "otl.gsub.prop", args+" data="+hx(b), true)
 	}
 	if len(b) <= 30000 || what == "boundary" {
@@ -980,7 +1060,7 @@ func otlGenGsub(c *Ctx, i int) {
 			m, mw := otlMutate(r, b)
 			t2 := tp
 			if r.Chance(1, 6) {
-				t2 = r.Range(1, 4)
+				t2 = Pick(r, []int{1, 2, 3, 4, 8})
 			}
 			c.Stat("gsub.mutation", mw)
 			o := c.Case(Verdict, "otl.gsub.read", fmt.Sprintf("type=%d data=%s", t2, hx(m)), true)
@@ -1036,6 +1116,50 @@ func otlGposFromFields(f Fields) gtab.Subtable {
 			vrs = append(vrs, otlParseVR(x))
 		}
 		return &gtab.Gpos1_2{Cov: otlCovFromRuns(otlParseRuns(f["cov"], false)), Adjust: vrs}
+	case "41", "61":
+		mc := otlCovFromRuns(otlParseRuns(f["mcov"], false))
+		bc := otlCovFromRuns(otlParseRuns(f["bcov"], false))
+		var marks []markarray.Record
+		for _, t := range f.List("marks", ",") {
+			q := strings.Split(t, ".")
+			c, _ := strconv.Atoi(q[0])
+			marks = append(marks, markarray.Record{Class: uint16(c), Table: otlAnchor(q[1], q[2])})
+		}
+		var rows [][]anchor.Table
+		for _, t := range f.List("bases", ";") {
+			row := []anchor.Table{}
+			if t != "e" {
+				for _, a := range strings.Split(t, ",") {
+					q := strings.Split(a, ".")
+					row = append(row, otlAnchor(q[0], q[1]))
+				}
+			}
+			rows = append(rows, row)
+		}
+		if f["st"] == "41" {
+			return &gtab.Gpos4_1{MarkCov: mc, BaseCov: bc, MarkArray: marks, BaseArray: rows}
+		}
+		return &gtab.Gpos6_1{Mark1Cov: mc, Mark2Cov: bc, Mark1Array: marks, Mark2Array: rows}
+	case "31":
+		l := &gtab.Gpos3_1{Cov: otlCovFromRuns(otlParseRuns(f["cov"], false))}
+		for _, t := range f.List("recs", ",") {
+			q := strings.Split(t, ".")
+			l.Records = append(l.Records, gtab.EntryExitRecord{Entry: otlAnchor(q[0], q[1]), Exit: otlAnchor(q[2], q[3])})
+		}
+		return l
+	case "22":
+		l := &gtab.Gpos2_2{Cov: otlCovFromRuns(otlParseRuns(f["cov"], false)).ToSet(), Class1: otlClassField(f["c1"]), Class2: otlClassField(f["c2"])}
+		for _, t := range f.List("rows", ";") {
+			row := []*gtab.PairAdjust{}
+			if t != "e" {
+				for _, q := range strings.Split(t, ",") {
+					vs := strings.Split(q, "/")
+					row = append(row, &gtab.PairAdjust{First: otlParseVR(vs[0]), Second: otlParseVR(vs[1])})
+				}
+			}
+			l.Adjust = append(l.Adjust, row)
+		}
+		return l
 	case "21":
 		l := gtab.Gpos2_1{}
 		for _, t := range f.List("pairs", ";") {
@@ -1053,8 +1177,65 @@ func otlGposFromFields(f Fields) gtab.Subtable {
 	panic("bad st")
 }
 
+func otlAnchor(x, y string) anchor.Table {
+	var a anchor.Table
+	xv, _ := strconv.Atoi(x)
+	yv, _ := strconv.Atoi(y)
+	reflect.ValueOf(&a.X).Elem().SetInt(int64(int16(uint16(xv))))
+	reflect.ValueOf(&a.Y).Elem().SetInt(int64(int16(uint16(yv))))
+	return a
+}
+
+func otlShowAnchor(a anchor.Table) string {
+	return fmt.Sprintf("%d.%d", uint16(a.X), uint16(a.Y))
+}
+
+func otlShowMarkBase(tp int, mc, bc coverage.Table, marks []markarray.Record, rows [][]anchor.Table) string {
+	ms := make([]string, len(marks))
+	for i, m := range marks {
+		ms[i] = fmt.Sprintf("%d.%s", m.Class, otlShowAnchor(m.Table))
+	}
+	rs := make([]string, len(rows))
+	for i, row := range rows {
+		if len(row) == 0 {
+			rs[i] = "e"
+			continue
+		}
+		q := make([]string, len(row))
+		for j, a := range row {
+			q[j] = otlShowAnchor(a)
+		}
+		rs[i] = strings.Join(q, ",")
+	}
+	return fmt.Sprintf("%d.1;mcov=%s;bcov=%s;marks=%s;bases=%s", tp, otlShowCov(mc), otlShowCov(bc), strings.Join(ms, ","), strings.Join(rs, ";"))
+}
+
 func otlShowGpos(st gtab.Subtable) string {
 	switch t := st.(type) {
+	case *gtab.Gpos4_1:
+		return otlShowMarkBase(4, t.MarkCov, t.BaseCov, t.MarkArray, t.BaseArray)
+	case *gtab.Gpos6_1:
+		return otlShowMarkBase(6, t.Mark1Cov, t.Mark2Cov, t.Mark1Array, t.Mark2Array)
+	case *gtab.Gpos3_1:
+		q := make([]string, len(t.Records))
+		for i, r := range t.Records {
+			q[i] = otlShowAnchor(r.Entry) + "." + otlShowAnchor(r.Exit)
+		}
+		return fmt.Sprintf("3.1;cov=%s;recs=%s", otlShowCov(t.Cov), strings.Join(q, ","))
+	case *gtab.Gpos2_2:
+		rs := make([]string, len(t.Adjust))
+		for i, row := range t.Adjust {
+			if len(row) == 0 {
+				rs[i] = "e"
+				continue
+			}
+			q := make([]string, len(row))
+			for j, a := range row {
+				q[j] = otlShowVR(a.First) + "/" + otlShowVR(a.Second)
+			}
+			rs[i] = strings.Join(q, ",")
+		}
+		return fmt.Sprintf("2.2;cov=%s;c1=%s;c2=%s;rows=%s", otlGids(t.Cov.Glyphs()), otlShowClass(t.Class1), otlShowClass(t.Class2), strings.Join(rs, ";"))
 	case *gtab.Gpos1_1:
 		return fmt.Sprintf("1.1;cov=%s;vr=%s", otlShowCov(t.Cov), otlShowVR(t.Adjust))
 	case *gtab.Gpos1_2:
@@ -1127,6 +1308,163 @@ func otlGenVR(r *Rng) string {
 		q[k] = strconv.Itoa(v)
 	}
 	return strings.Join(q, ".")
+}
+
+func otlGenAnchor(r *Rng) string {
+	if r.Chance(1, 5) {
+		return "0.0"
+	}
+	return fmt.Sprintf("%d.%d", Pick(r, []int{0, 1, 65535, 32768, r.Intn(65536), r.Intn(500)}), Pick(r, []int{0, 7, 65535, r.Intn(65536)}))
+}
+
+func otlSmallCov(r *Rng, maxGlyphs int) []otlRun {
+	for {
+		rs := otlGenRuns(r, false)
+		if otlCountGlyphs(rs) <= maxGlyphs {
+			return rs
+		}
+	}
+}
+
+// otlGenGposMark writes the cases for a GPOS 2.2 / 3.1 / 4.1 / 6.1 subtable.
+func otlGenGposMark(c *Ctx, i int) {
+	r := c.Rng
+	st := Pick(r, []string{"41", "41", "61", "31", "22", "22"})
+	what := "regular"
+	args := ""
+	tp := map[string]int{"41": 4, "61": 6, "31": 3, "22": 2}[st]
+	if i < 8 {
+		st = []string{"41", "41", "61", "61", "31", "31", "22", "22"}[i]
+		tp = map[string]int{"41": 4, "61": 6, "31": 3, "22": 2}[st]
+		what = []string{"boundary-ok", "boundary-refused"}[i%2]
+	}
+	switch st {
+	case "41", "61":
+		mrs, brs := otlSmallCov(r, 60), otlSmallCov(r, 60)
+		nm, nb := otlCountGlyphs(mrs), otlCountGlyphs(brs)
+		nc := r.Range(1, 4)
+		if what != "regular" {
+			// last anchor offset inside the base array at 65534 / above: 2 + 2*nb*nc + 6*(anchors-1);
+			// nb = 2046 bases x 4 classes: 2 + 16368 + 6*8183 = 65468; pad with i%2 more rows
+			nc = 4
+			nb = 2048 + (i % 2)
+			brs = []otlRun{{0, nb - 1, 0}}
+			mrs = []otlRun{{40000, 40000, 0}}
+			nm = 1
+		}
+		marks := make([]string, nm)
+		for k := range marks {
+			marks[k] = fmt.Sprintf("%d.%s", r.Intn(nc), otlGenAnchor(r))
+		}
+		rows := make([]string, nb)
+		for k := range rows {
+			q := make([]string, nc)
+			for j := range q {
+				q[j] = otlGenAnchor(r)
+				if what != "regular" {
+					q[j] = fmt.Sprintf("%d.%d", 1+k%100, 1+j)
+				}
+			}
+			rows[k] = strings.Join(q, ",")
+		}
+		if what == "regular" && r.Chance(1, 10) && nm > 0 {
+			marks = marks[:nm-1]
+			what = "count-mismatch"
+		}
+		args = fmt.Sprintf("st=%s mcov=%s bcov=%s marks=%s bases=%s", st, otlRunsString(mrs, false), otlRunsString(brs, false), strings.Join(marks, ","), strings.Join(rows, ";"))
+	case "31":
+		rs := otlSmallCov(r, 200)
+		n := otlCountGlyphs(rs)
+		if what != "regular" {
+			n = 4095 + (i % 2) // 6 + 4n + 12n = 65526 / 65542
+			rs = []otlRun{{0, n - 1, 0}}
+		}
+		recs := make([]string, n)
+		for k := range recs {
+			recs[k] = otlGenAnchor(r) + "." + otlGenAnchor(r)
+			if what != "regular" {
+				recs[k] = fmt.Sprintf("%d.1.2.%d", 1+k%50, 1+k%70)
+			}
+		}
+		args = fmt.Sprintf("st=31 cov=%s recs=%s", otlRunsString(rs, false), strings.Join(recs, ","))
+	case "22":
+		rs := otlSmallCov(r, 100)
+		n1, n2 := r.Range(0, 5), r.Range(0, 5)
+		if what != "regular" {
+			n1, n2 = 128, 128+(i%2)*2 // 16 + 128*128*4 = 65552 ... see below
+		}
+		cls := func(n int) string {
+			if n == 0 {
+				return "empty"
+			}
+			var q []otlRun
+			g := r.Intn(50)
+			for k := 1; k < n; k++ {
+				q = append(q, otlRun{g, g + r.Intn(3), k})
+				g += 3 + r.Intn(10)
+			}
+			if len(q) == 0 {
+				return "empty"
+			}
+			return otlRunsString(q, true)
+		}
+		rows := make([]string, n1)
+		for k := range rows {
+			q := make([]string, n2)
+			for j := range q {
+				q[j] = otlGenVR(r) + "/" + Pick(r, []string{"-", "-", otlGenVR(r)})
+				if what != "regular" {
+					q[j] = fmt.Sprintf("0.0.%d.0.0.0.0.0/-", 1+(k+j)%9)
+				}
+			}
+			rows[k] = strings.Join(q, ",")
+			if n2 == 0 {
+				rows[k] = "e"
+			}
+		}
+		c1, c2 := cls(n1), cls(n2)
+		if what != "regular" {
+			// one value per pair: 16 + 2*n1*n2 (+ coverage 4+... + class1) must straddle 0xFFFF:
+			// n1 = 181, n2 = 181: 16 + 65522 = 65538 -> choose n2 so that classDef2Offset is 65534 / 65536+
+			n1 = 180
+			n2 = 181 + (i % 2)
+			rows = make([]string, n1)
+			for k := range rows {
+				q := make([]string, n2)
+				for j := range q {
+					q[j] = fmt.Sprintf("0.0.%d.0.0.0.0.0/-", 1+(k+j)%9)
+				}
+				rows[k] = strings.Join(q, ",")
+			}
+			rs = []otlRun{{0, 9, 0}}
+			c1, c2 = "5:1", "7:1"
+		}
+		args = fmt.Sprintf("st=22 cov=%s c1=%s c2=%s rows=%s", otlRunsString(rs, false), c1, c2, strings.Join(rows, ";"))
+	}
+	c.Stat("gposmark.kind", st+":"+what)
+	out := c.Case(Verdict, "otl.gpos.encode", args, true)
+	c.Stat("gposmark.encode-outcome", outcomeClass(out))
+	if !strings.HasPrefix(out, "ok:") {
+		return
+	}
+	b := gtab.VerifSubtableEncode(otlGposFromFields(parseFields(args)))
+	c.Stat("gposmark.bytes", bucket(len(b)))
+	if len(b) <= 30000 || what != "regular" {
+		o := c.Case(Verdict, "otl.gpos.read", fmt.Sprintf("type=%d data=%s", tp, hx(b)), true)
+		c.Stat("gposmark.read-outcome", "encoded:"+outcomeClass(o))
+	}
+	if len(b) <= 6000 {
+		for k := 0; k < 3; k++ {
+			m, mw := otlMutate(r, b)
+			t2 := tp
+			if r.Chance(1, 6) {
+				t2 = Pick(r, []int{1, 2, 3, 4, 6})
+			}
+			c.Stat("gposmark.mutation", mw)
+			o := c.Case(Verdict, "otl.gpos.read", fmt.Sprintf("type=%d data=%s", t2, hx(m)), true)
+			c.Stat("gposmark.read-outcome", "mutated:"+outcomeClass(o))
+		}
+	}
 }
 
 // otlGenGpos writes the cases for one GPOS subtable.
@@ -1232,9 +1570,6 @@ func otlGenGpos(c *Ctx, i int) {
 			t2 := tp
 			if r.Chance(1, 6) {
 				t2 = r.Range(1, 2)
-			}
-			if len(m) >= 2 && t2 == 2 && m[0] == 0 && m[1] == 2 {
-				continue // GPOS 2.2 is not modelled
 			}
 			c.Stat("gpos.mutation", mw)
 			o := c.Case(Verdict, "otl.gpos.read", fmt.Sprintf("type=%d data=%s", t2, hx(m)), true)
@@ -1941,6 +2276,387 @@ func otlGenGtab(c *Ctx, i int) {
 		c.Stat("gtab.mutation", mw)
 		o := c.Case(Verdict, "otl.gtab.read", "data="+hx(m), true)
 		c.Stat("gtab.read-outcome", "mutated:"+outcomeClass(o))
+	}
+}
+
+// ---------------------------------------------------------------- contextual lookups
+
+func otlParseDots(s string) []int {
+	if s == "" {
+		return nil
+	}
+	var out []int
+	for _, x := range strings.Split(s, ".") {
+		v, _ := strconv.Atoi(x)
+		out = append(out, v)
+	}
+	return out
+}
+
+func otlParseActs(s string) []gtab.SeqLookup {
+	var out []gtab.SeqLookup
+	if s == "" {
+		return out
+	}
+	for _, t := range strings.Split(s, "+") {
+		i := strings.IndexByte(t, ':')
+		a, _ := strconv.Atoi(t[:i])
+		b, _ := strconv.Atoi(t[i+1:])
+		out = append(out, gtab.SeqLookup{SequenceIndex: uint16(a), LookupListIndex: gtab.LookupIndex(b)})
+	}
+	return out
+}
+
+func otlGidsOf(l []int) []glyph.ID {
+	out := make([]glyph.ID, len(l))
+	for i, x := range l {
+		out[i] = glyph.ID(x)
+	}
+	return out
+}
+
+func otlU16sOf(l []int) []uint16 {
+	out := make([]uint16, len(l))
+	for i, x := range l {
+		out[i] = uint16(x)
+	}
+	return out
+}
+
+// otlParseRuleSets returns, per set, nil (for "-") or the rules as (back, input, look, actions).
+func otlParseRuleSets(s string) [][]otlRuleG {
+	if s == "" {
+		return nil
+	}
+	var out [][]otlRuleG
+	for _, t := range strings.Split(s, "|") {
+		switch t {
+		case "-":
+			out = append(out, nil)
+		case "e":
+			out = append(out, []otlRuleG{})
+		default:
+			var rs []otlRuleG
+			for _, q := range strings.Split(t, ",") {
+				i := strings.IndexByte(q, '>')
+				parts := strings.Split(q[:i], "/")
+				rs = append(rs, otlRuleG{otlParseDots(parts[0]), otlParseDots(parts[1]), otlParseDots(parts[2]), otlParseActs(q[i+1:])})
+			}
+			out = append(out, rs)
+		}
+	}
+	return out
+}
+
+type otlRuleG struct {
+	back, input, look []int
+	acts              []gtab.SeqLookup
+}
+
+func otlCovSetList(s string) []coverage.Set {
+	var out []coverage.Set
+	if s == "" {
+		return out
+	}
+	for _, q := range strings.Split(s, "/") {
+		set := coverage.Set{}
+		if q != "e" {
+			for _, r := range otlParseRuns(q, false) {
+				for g := r.a; g <= r.b; g++ {
+					set[glyph.ID(g)] = true
+				}
+			}
+		}
+		out = append(out, set)
+	}
+	return out
+}
+
+func otlCtxFromFields(f Fields) gtab.Subtable {
+	sets := otlParseRuleSets(f["sets"])
+	cov := otlCovFromRuns(otlParseRuns(f["cov"], false))
+	switch f["st"] {
+	case "c1":
+		l := &gtab.SeqContext1{Cov: cov}
+		for _, rs := range sets {
+			if rs == nil {
+				l.Rules = append(l.Rules, nil)
+				continue
+			}
+			x := []*gtab.SeqRule{}
+			for _, r := range rs {
+				x = append(x, &gtab.SeqRule{Input: otlGidsOf(r.input), Actions: r.acts})
+			}
+			l.Rules = append(l.Rules, x)
+		}
+		return l
+	case "c2":
+		l := &gtab.SeqContext2{Cov: cov, Input: otlClassField(f["cd"])}
+		for _, rs := range sets {
+			if rs == nil {
+				l.Rules = append(l.Rules, nil)
+				continue
+			}
+			x := []*gtab.ClassSeqRule{}
+			for _, r := range rs {
+				x = append(x, &gtab.ClassSeqRule{Input: otlU16sOf(r.input), Actions: r.acts})
+			}
+			l.Rules = append(l.Rules, x)
+		}
+		return l
+	case "c3":
+		return &gtab.SeqContext3{Input: otlCovSetList(f["covs"]), Actions: otlParseActs(f["acts"])}
+	case "C1":
+		l := &gtab.ChainedSeqContext1{Cov: cov}
+		for _, rs := range sets {
+			if rs == nil {
+				l.Rules = append(l.Rules, nil)
+				continue
+			}
+			x := []*gtab.ChainedSeqRule{}
+			for _, r := range rs {
+				x = append(x, &gtab.ChainedSeqRule{Backtrack: otlGidsOf(r.back), Input: otlGidsOf(r.input), Lookahead: otlGidsOf(r.look), Actions: r.acts})
+			}
+			l.Rules = append(l.Rules, x)
+		}
+		return l
+	case "C2":
+		l := &gtab.ChainedSeqContext2{Cov: cov, Backtrack: otlClassField(f["cb"]), Input: otlClassField(f["ci"]), Lookahead: otlClassField(f["cl"])}
+		for _, rs := range sets {
+			if rs == nil {
+				l.Rules = append(l.Rules, nil)
+				continue
+			}
+			x := []*gtab.ChainedClassSeqRule{}
+			for _, r := range rs {
+				x = append(x, &gtab.ChainedClassSeqRule{Backtrack: otlU16sOf(r.back), Input: otlU16sOf(r.input), Lookahead: otlU16sOf(r.look), Actions: r.acts})
+			}
+			l.Rules = append(l.Rules, x)
+		}
+		return l
+	case "C3":
+		return &gtab.ChainedSeqContext3{Backtrack: otlCovSetList(f["back"]), Input: otlCovSetList(f["input"]), Lookahead: otlCovSetList(f["look"]), Actions: otlParseActs(f["acts"])}
+	}
+	panic("bad st")
+}
+
+func otlShowDots[T ~uint16](l []T) string {
+	q := make([]string, len(l))
+	for i, x := range l {
+		q[i] = strconv.Itoa(int(x))
+	}
+	return strings.Join(q, ".")
+}
+
+func otlShowActs(l []gtab.SeqLookup) string {
+	q := make([]string, len(l))
+	for i, a := range l {
+		q[i] = fmt.Sprintf("%d:%d", a.SequenceIndex, a.LookupListIndex)
+	}
+	return strings.Join(q, "+")
+}
+
+func otlShowSetList(sets []string) string { return strings.Join(sets, "|") }
+
+func otlShowCovSets(l []coverage.Set) string {
+	q := make([]string, len(l))
+	for i, c := range l {
+		q[i] = otlGids(c.Glyphs())
+	}
+	return strings.Join(q, "/")
+}
+
+func otlShowCtx(st gtab.Subtable) string {
+	setStr := func(n int, isNil func(int) bool, cnt func(int) int, rule func(i, j int) string) string {
+		parts := make([]string, n)
+		for i := 0; i < n; i++ {
+			switch {
+			case isNil(i):
+				parts[i] = "-"
+			case cnt(i) == 0:
+				parts[i] = "e"
+			default:
+				q := make([]string, cnt(i))
+				for j := range q {
+					q[j] = rule(i, j)
+				}
+				parts[i] = strings.Join(q, ",")
+			}
+		}
+		return strings.Join(parts, "|")
+	}
+	switch t := st.(type) {
+	case *gtab.SeqContext1:
+		return fmt.Sprintf("5.1;cov=%s;sets=%s", otlShowCov(t.Cov), setStr(len(t.Rules), func(i int) bool { return t.Rules[i] == nil }, func(i int) int { return len(t.Rules[i]) }, func(i, j int) string {
+			r := t.Rules[i][j]
+			return fmt.Sprintf("/%s/>%s", otlShowDots(r.Input), otlShowActs(r.Actions))
+		}))
+	case *gtab.SeqContext2:
+		return fmt.Sprintf("5.2;cov=%s;classes=%s;sets=%s", otlShowCov(t.Cov), otlShowClass(t.Input), setStr(len(t.Rules), func(i int) bool { return t.Rules[i] == nil }, func(i int) int { return len(t.Rules[i]) }, func(i, j int) string {
+			r := t.Rules[i][j]
+			return fmt.Sprintf("/%s/>%s", otlShowDots(r.Input), otlShowActs(r.Actions))
+		}))
+	case *gtab.SeqContext3:
+		return fmt.Sprintf("5.3;covs=%s;acts=%s", otlShowCovSets(t.Input), otlShowActs(t.Actions))
+	case *gtab.ChainedSeqContext1:
+		return fmt.Sprintf("6.1;cov=%s;sets=%s", otlShowCov(t.Cov), setStr(len(t.Rules), func(i int) bool { return t.Rules[i] == nil }, func(i int) int { return len(t.Rules[i]) }, func(i, j int) string {
+			r := t.Rules[i][j]
+			return fmt.Sprintf("%s/%s/%s>%s", otlShowDots(r.Backtrack), otlShowDots(r.Input), otlShowDots(r.Lookahead), otlShowActs(r.Actions))
+		}))
+	case *gtab.ChainedSeqContext2:
+		return fmt.Sprintf("6.2;cov=%s;classes=%s/%s/%s;sets=%s", otlShowCov(t.Cov), otlShowClass(t.Backtrack), otlShowClass(t.Input), otlShowClass(t.Lookahead), setStr(len(t.Rules), func(i int) bool { return t.Rules[i] == nil }, func(i int) int { return len(t.Rules[i]) }, func(i, j int) string {
+			r := t.Rules[i][j]
+			return fmt.Sprintf("%s/%s/%s>%s", otlShowDots(r.Backtrack), otlShowDots(r.Input), otlShowDots(r.Lookahead), otlShowActs(r.Actions))
+		}))
+	case *gtab.ChainedSeqContext3:
+		return fmt.Sprintf("6.3;back=%s;in=%s;look=%s;acts=%s", otlShowCovSets(t.Backtrack), otlShowCovSets(t.Input), otlShowCovSets(t.Lookahead), otlShowActs(t.Actions))
+	}
+	return ""
+}
+
+// otlGenCtx writes the cases for one contextual lookup subtable.
+func otlGenCtx(c *Ctx, i int) {
+	r := c.Rng
+	st := Pick(r, []string{"c1", "c2", "c3", "C1", "C2", "C3"})
+	if i < 4 {
+		st = []string{"c1", "c1", "C1", "C1"}[i]
+	}
+	chained := st[0] == 'C'
+	tp := 5
+	if chained {
+		tp = 6
+	}
+	what := "regular"
+	dots := func(n, lim int) string {
+		q := make([]string, n)
+		for k := range q {
+			q[k] = strconv.Itoa(Pick(r, []int{0, 1, 2, lim - 1, r.Intn(lim)}))
+		}
+		return strings.Join(q, ".")
+	}
+	acts := func() string {
+		n := Pick(r, []int{0, 1, 1, 2, 3})
+		q := make([]string, n)
+		for k := range q {
+			q[k] = fmt.Sprintf("%d:%d", r.Intn(4), Pick(r, []int{0, 1, 7, 65535}))
+		}
+		return strings.Join(q, "+")
+	}
+	lim := 65536
+	if st == "c2" || st == "C2" {
+		lim = 6
+	}
+	rule := func() string {
+		b, l := "", ""
+		if chained {
+			b, l = dots(r.Intn(3), lim), dots(r.Intn(3), lim)
+		}
+		return fmt.Sprintf("%s/%s/%s>%s", b, dots(r.Intn(4), lim), l, acts())
+	}
+	ruleSets := func(n int) string {
+		parts := make([]string, n)
+		for k := range parts {
+			switch r.Intn(6) {
+			case 0:
+				parts[k] = "-"
+			case 1:
+				parts[k] = "e"
+			default:
+				m := r.Range(1, 3)
+				q := make([]string, m)
+				for j := range q {
+					q[j] = rule()
+				}
+				parts[k] = strings.Join(q, ",")
+			}
+		}
+		return strings.Join(parts, "|")
+	}
+	cls := func(maxClass int) string {
+		if maxClass == 0 {
+			return "empty"
+		}
+		var q []otlRun
+		g := r.Intn(50)
+		for k := 1; k <= maxClass; k++ {
+			q = append(q, otlRun{g, g + r.Intn(3), k})
+			g += 3 + r.Intn(10)
+		}
+		return otlRunsString(q, true)
+	}
+	covList := func(n int) string {
+		q := make([]string, n)
+		for k := range q {
+			q[k] = otlRunsString(otlSmallCov(r, 30), false)
+			if q[k] == "" {
+				q[k] = "e"
+			}
+		}
+		return strings.Join(q, "/")
+	}
+	args := ""
+	switch st {
+	case "c1", "C1":
+		rs := otlSmallCov(r, 12)
+		n := otlCountGlyphs(rs)
+		if r.Chance(1, 10) {
+			n = max(0, n+Pick(r, []int{-1, 1}))
+			what = "count-mismatch"
+		}
+		if i < 4 {
+			// one rule per set, 4200 / 4000 sets: the coverage (c1) or the last rule set (C1) lies beyond 64 KiB / inside
+			st = []string{"c1", "c1", "C1", "C1"}[i]
+			chained = st == "C1"
+			tp = map[bool]int{false: 5, true: 6}[chained]
+			n = []int{4095, 4096, 3640, 3641}[i] // c1: 6+2n+14n = 65526/65542; C1: 6+2n+10 (cov) + 16n -> last set at 65518/65536
+			rs = []otlRun{{0, n - 1, 0}}
+			parts := make([]string, n)
+			for k := range parts {
+				if chained {
+					parts[k] = "9/1/>0:1" // 2 + 2 + (2+2) + (2+2) + 2 + (2+4) = 18?  see sizes in the model
+				} else {
+					parts[k] = "/1.2/>0:1" // set: 2 + 2 + 4 + 4 + 4 = 16 -> adjust n below
+				}
+			}
+			what = []string{"boundary-ok", "boundary-refused"}[i%2]
+			args = fmt.Sprintf("st=%s cov=%s sets=%s", st, otlRunsString(rs, false), strings.Join(parts, "|"))
+		} else {
+			args = fmt.Sprintf("st=%s cov=%s sets=%s", st, otlRunsString(rs, false), ruleSets(n))
+		}
+	case "c2":
+		nc := r.Range(0, 5)
+		args = fmt.Sprintf("st=c2 cov=%s cd=%s sets=%s", otlRunsString(otlSmallCov(r, 30), false), cls(nc), ruleSets(r.Range(0, nc+1)))
+	case "C2":
+		nc := r.Range(0, 5)
+		args = fmt.Sprintf("st=C2 cov=%s cb=%s ci=%s cl=%s sets=%s", otlRunsString(otlSmallCov(r, 30), false), cls(r.Intn(4)), cls(nc), cls(r.Intn(4)), ruleSets(r.Range(0, nc+1)))
+	case "c3":
+		args = fmt.Sprintf("st=c3 covs=%s acts=%s", covList(r.Range(1, 4)), acts())
+	case "C3":
+		args = fmt.Sprintf("st=C3 back=%s input=%s look=%s acts=%s", covList(r.Intn(3)), covList(r.Range(1, 3)), covList(r.Intn(3)), acts())
+	}
+	c.Stat("ctx.kind", st+":"+what)
+	out := c.Case(Verdict, "otl.gsub.encode", args, true)
+	c.Stat("ctx.encode-outcome", outcomeClass(out))
+	if !strings.HasPrefix(out, "ok:") {
+		return
+	}
+	b := gtab.VerifSubtableEncode(otlCtxFromFields(parseFields(args)))
+	c.Stat("ctx.bytes", bucket(len(b)))
+	if len(b) <= 30000 || what != "regular" {
+		o := c.Case(Verdict, "otl.gsub.read", fmt.Sprintf("type=%d data=%s", tp, hx(b)), true)
+		c.Stat("ctx.read-outcome", "encoded:"+outcomeClass(o))
+	}
+	if len(b) <= 6000 {
+		for k := 0; k < 3; k++ {
+			m, mw := otlMutate(r, b)
+			t2 := tp
+			if r.Chance(1, 6) {
+				t2 = Pick(r, []int{5, 6})
+			}
+			c.Stat("ctx.mutation", mw)
+			o := c.Case(Verdict, "otl.gsub.read", fmt.Sprintf("type=%d data=%s", t2, hx(m)), true)
+			c.Stat("ctx.read-outcome", "mutated:"+outcomeClass(o))
+		}
 	}
 }
 
